@@ -84,7 +84,7 @@ func c13Force(c *core.Ctx, r *core.Reporter) {
 	okVal := false
 	if store != nil {
 		for _, cl := range core.Classes(store.Value) {
-			if cl == "call:"+force.Call.StaticCallee().Name() {
+			if cl == "call:"+core.N(force.Call.StaticCallee()) {
 				okVal = true
 			}
 		}
@@ -167,12 +167,12 @@ func c13Append(c *core.Ctx, r *core.Reporter) {
 	var pos token.Pos
 	for _, fn := range c.LibFuncs() {
 		for _, w := range core.WritesIn(fn) {
-			if w.Owner == nil || w.Owner.Obj().Name() != "selectionPlan" || w.Field.Name() != "fields" || w.Fresh {
+			if w.Owner == nil || core.N(w.Owner.Obj()) != "selectionPlan" || core.N(w.Field) != "fields" || w.Fresh {
 				continue
 			}
 			st, ok := w.In.(*ssa.Store)
 			if !ok {
-				bad = "element write into selectionPlan.fields in " + fn.Name()
+				bad = "element write into selectionPlan.fields in " + core.N(fn)
 				continue
 			}
 			n++
@@ -182,8 +182,8 @@ func c13Append(c *core.Ctx, r *core.Reporter) {
 			if ok {
 				b, isB = call.Call.Value.(*ssa.Builtin)
 			}
-			if !ok || !isB || b.(*ssa.Builtin).Name() != "append" || !core.HasClass(call.Call.Args[0], "field:selectionPlan.fields") {
-				bad = "selectionPlan.fields is assigned something other than append(sp.fields, …) in " + fn.Name()
+			if !ok || !isB || core.N(b.(*ssa.Builtin)) != "append" || !core.HasClass(call.Call.Args[0], "field:selectionPlan.fields") {
+				bad = "selectionPlan.fields is assigned something other than append(sp.fields, …) in " + core.N(fn)
 			}
 			if fnKey(fn) != "Plan.collectInto" {
 				bad = "selectionPlan.fields is written outside collectInto (in " + fnKey(fn) + ")"
